@@ -34,7 +34,8 @@ fn classify(a: &Tree, b: &Tree, depth: usize, followed: bool) -> Option<String> 
         (Tree::Num(x), Tree::Num(y)) => {
             let (fx, fy) = (refops::as_f64(x), refops::as_f64(y));
             let v_eq = refnum::eq(x, y);
-            let i_eq = fx.to_bits() == fy.to_bits() || (fx.is_nan() && fy.is_nan());
+            // the key image of a number is its nearest double, with both zeros sharing one image
+            let i_eq = fx.to_bits() == fy.to_bits() || (fx.is_nan() && fy.is_nan()) || (fx == 0.0 && fy == 0.0);
             match (v_eq, i_eq) {
                 (true, true) => None,
                 (true, false) => Some(if fx == 0.0 && fy == 0.0 { "equal-numbers/signed-zero".into() } else { "equal-numbers/different-image".into() }),
@@ -149,7 +150,7 @@ pub fn run(ctx: &mut Ctx) {
         }
     }
     ctx.exhaustive.insert("all ordered pairs of documents with <=3 nodes".into(), !ctx.miri);
-    let n = ctx.budget(40_000, 1_500_000);
+    let n = ctx.budget(400_000, 8_000_000);
     for i in 0..n {
         if !ctx.next_case() {
             return;
